@@ -419,6 +419,11 @@ Fixpoint run (s : sys) (es : list ev) : sys * list res :=
   | e :: es' => let '(s1, o) := step s e in let '(s2, os) := run s1 es' in (s2, o :: os)
   end.
 
+(* test data of the correspondence scripts: len bytes (s + i) mod 251 (large writes) *)
+Fixpoint pat_aux (fuel : nat) (v : N) : list N :=
+  match fuel with O => [] | S f => (v mod 251)%N :: pat_aux f (v + 1)%N end.
+Definition pat (s len : N) : list N := pat_aux (N.to_nat len) s.
+
 (* ---- plain-data encoding of the outputs (correspondence) ------------------------- *)
 
 Definition enc_side (x : side) : N := match x with A => 0 | B => 1 end%N.
@@ -431,12 +436,17 @@ Definition enc_pkt (m : side * pkt) : list N :=
   | PSeg q Fin => [enc_side (fst m); 2; q; 0]
   | PRst => [enc_side (fst m); 3; 0; 0]
   end%N.
-(* (tag, numbers, lists): 0 pending, 1 ok n, 2 ok bytes, 3 ok, 4 err k, 5 none, 6 invalid, 7 view *)
+(* position-sensitive checksum of a long read result (printing 10^5 numbers is too slow) *)
+Definition digest (bs : list N) : N :=
+  snd (fold_left (fun (a : N * N) b => (fst a + 1, (snd a + (fst a + 1) * (b + 1)) mod 1000003))%N bs (0, 0)%N).
+
+(* (tag, numbers, lists): 0 pending, 1 ok n, 2 ok bytes, 3 ok, 4 err k, 5 none, 6 invalid, 7 view,
+   8 ok long bytes as [length; digest] *)
 Definition enc_res (r : res) : N * list N * list (list N) :=
   match r with
   | RPending => (0, [], [])
   | ROkN n => (1, [N.of_nat n], [])
-  | ROkBytes bs => (2, bs, [])
+  | ROkBytes bs => if Nat.ltb 256 (length bs) then (8, [N.of_nat (length bs); digest bs], []) else (2, bs, [])
   | ROk => (3, [], [])
   | RErr k => (4, [enc_err k], [])
   | RNone => (5, [], [])
